@@ -614,3 +614,11 @@ Proof.
     + split; [reflexivity|]. split; [reflexivity|].
       pose proof (c_fresh _ _ _ _ HC W) as Fr. rewrite C, P, RS in Fr. apply Fr. exact Logic.I.
 Qed.
+
+Lemma thm_quiescent_iff s :
+  quiescent s = true <-> (forall l, external l = false -> step s l = None).
+Proof.
+  split.
+  - intros Q l Hext. destruct (step s l) eqn:E; [|reflexivity]. exfalso. exact (quiescent_spec s Q l s0 Hext E).
+  - apply quiescent_intro.
+Qed.
